@@ -445,6 +445,8 @@ func (self *Analyzer) importItem(node pAst.ImportStatement) ast.AnalyzedImport {
 
 			if item.Kind == pAst.IMPORT_KIND_TEMPLATE {
 				templ, found := module.getTemplate(item.Ident)
+				// in this module, the template is declared by this import item
+				templ.Span = item.Span
 				if !found {
 					self.error(
 						fmt.Sprintf("No template named '%s' found in module '%s'", item.Ident, node.FromModule),
@@ -467,6 +469,8 @@ func (self *Analyzer) importItem(node pAst.ImportStatement) ast.AnalyzedImport {
 
 			if item.Kind == pAst.IMPORT_KIND_TRIGGER {
 				trigg, found := module.getTrigger(item.Ident)
+				// in this module, the trigger is imported by this item (not where the other module got it from)
+				trigg.ImportedAt = item.Span
 				if !found {
 					self.error(
 						fmt.Sprintf("No trigger named '%s' found in module '%s'", item.Ident, node.FromModule),
